@@ -970,6 +970,50 @@ impl QueryEngine {
     }
 }
 
+/// Verification hook: one live query of the engine. `tag`: 0 FindNode, 1 PutRecord,
+/// 2 PutRecordToPeers, 3 PutRecordToFoundNodes, 4 GetRecord, 5 AddProvider,
+/// 6 AddProviderToFoundNodes, 7 GetProviders.
+#[cfg(feature = "verif")]
+#[derive(Debug, Clone)]
+pub struct VerifQueryState {
+    pub query: QueryId,
+    pub tag: u8,
+    /// Lookup snapshot (tags 0, 1, 4, 5, 7).
+    pub lookup: Option<VerifQueryDump>,
+    /// `(pending_peers, n_succeeded, peers_to_succeed)` of the send phase (tags 3, 6).
+    pub tracking: Option<(Vec<PeerId>, usize, usize)>,
+}
+
+#[cfg(feature = "verif")]
+impl QueryEngine {
+    /// Verification hook: all live queries (unordered).
+    pub fn verif_queries(&self) -> Vec<VerifQueryState> {
+        self.queries
+            .iter()
+            .map(|(query, state)| {
+                let (tag, tracking) = match state {
+                    QueryType::FindNode { .. } => (0, None),
+                    QueryType::PutRecord { .. } => (1, None),
+                    QueryType::PutRecordToPeers { .. } => (2, None),
+                    QueryType::PutRecordToFoundNodes { context } =>
+                        (3, Some(context.verif_tracking())),
+                    QueryType::GetRecord { .. } => (4, None),
+                    QueryType::AddProvider { .. } => (5, None),
+                    QueryType::AddProviderToFoundNodes { context } =>
+                        (6, Some(context.verif_tracking())),
+                    QueryType::GetProviders { .. } => (7, None),
+                };
+                VerifQueryState {
+                    query: *query,
+                    tag,
+                    lookup: self.verif_dump(*query),
+                    tracking,
+                }
+            })
+            .collect()
+    }
+}
+
 #[cfg(test)]
 mod tests {
     use multihash::Multihash;
